@@ -177,7 +177,9 @@ def _check(case, cfg, files_raw, paths, d, res, ctx) -> None:  # noqa: ANN001
                 errs.append(f"pid {pid!r} != {e.pid!r}")
             if tid != e.tid:
                 errs.append(f"tid {tid!r} != {e.tid!r}")
-            tdok = (ts + (min_ts if loaded else 0) == e.ts and dur == e.dur) or (
+            # with rounding disabled the columns are float: the loader computes ts - min_ts once, adding min_ts back need not
+            # give the file's double again (9.0 + 6.999 != 15.999), so the loader's own operation is accepted as well
+            tdok = (ts + (min_ts if loaded else 0) == e.ts and dur == e.dur) or (cfg["no_round"] and loaded and ts == e.ts - min_ts and dur == e.dur) or (
                 e.ts_alt is not None and ts + (min_ts if loaded else 0) == e.ts_alt[0] and dur == e.ts_alt[1])
             if not tdok and not frac[r] and isinstance(e.dur, float):
                 # integer ts with fractional dur: either nothing is rounded or the end is floored
